@@ -67,9 +67,9 @@ CHECKS = {
             {"pkg": "Havoc/pkg/socks", "entries": ["H_c15_greeting", "H_c15_reply"]},
             {"pkg": "Havoc/pkg/socks", "entries": ["H_c15_request"], "shards": 13},
             {"pkg": "Havoc/pkg/agent", "with": AGENT_WITH, "entries": ["H_c15_proxy"], "shards": 5},
-            {"pkg": "Havoc/pkg/agent", "with": AGENT_WITH, "entries": ["H_c15_relay"]},
+            {"pkg": "Havoc/pkg/agent", "with": AGENT_WITH, "entries": ["H_c15_relay", "H_c15_socks_admin"]},
         ],
-        "bounds": "greeting: every stream of 0..6 bytes; request: every stream of 0..12 bytes; both under every segmentation into chunks of 1, 2 or all remaining bytes; reply builder: IPv4/IPv6/domain of length 0,1,2,127,128,255; proxy handler: greeting 0..4 bytes then request 0..10 bytes (client waits for the method selection); relay: READ/CLOSE/CONNECT callbacks for an arbitrary socket id against a table of two clients, data 0..3 bytes.",
+        "bounds": "greeting: every stream of 0..6 bytes; request: every stream of 0..12 bytes; both under every segmentation into chunks of 1, 2 or all remaining bytes; reply builder: IPv4/IPv6/domain of length 0,1,2,127,128,255; proxy handler: greeting 0..4 bytes then request 0..10 bytes (client waits for the method selection); relay: READ/CLOSE/CONNECT callbacks for an arbitrary socket id against a table of two clients, data 0..3 bytes; operator socks list/kill/clear with 0..3 proxies of 0..2 clients each.",
         "outside": "reader goroutines and their lifetime, real TCP, io.Copy in PortFwdRead, pipelined greeting+request, concurrent table use (two-thread harness not built in this revision)",
         "min_completed": 3,
     },
